@@ -38,7 +38,57 @@ func (p *c10) Init(tier string, seed int64) {
 	p.nRand = p.pick(3000, 200000)
 }
 
-func (p *c10) N() int { return p.nEnum + p.nRand + c10nSelf }
+func (p *c10) N() int { return p.nEnum + p.nRand + c10nSelf + c10nOdd }
+
+// c10nOdd: with-values that are no hash (a list, a number, a string, a boolean). What the target then sees is not
+// claimed - but the construct is over when it is over: the names visible after it are the names visible before it,
+// wherever it stands (macro body, loop body, condition), and the execution ends the way it began.
+const c10nOdd = 5 * 3 * 4
+
+func (p *c10) buildOdd(j int) (*Program, string) {
+	withs := []func() gen.Expr{
+		func() gen.Expr { return &gen.EArr{} }, func() gen.Expr { return num(5) }, func() gen.Expr { return str("text") },
+		func() gen.Expr { return &gen.EBool{V: true} }, func() gen.Expr { return &gen.EArr{Els: []gen.Expr{num(1), num(2)}} }}
+	w, site, form := withs[j%5], (j/5)%3, j/15
+	var cons gen.Node
+	if form < 2 {
+		cons = &gen.NInclude{Tpl: str("tgt"), With: w(), Only: form == 1}
+	} else {
+		cons = &gen.NEmbed{Tpl: str("tgt"), With: w(), Only: form == 3, Blocks: []*gen.NBlock{{Name: "tb", Body: []gen.Node{tx("over")}}}}
+	}
+	names := func() gen.Node { return pr(&gen.ECall{Fn: "names"}) }
+	var host []gen.Node
+	switch site {
+	case 0:
+		host = []gen.Node{&gen.NMacro{Name: "m", Params: []string{"mp", "mq"}, Body: []gen.Node{tx("("), cons, tx(")")}}, names(), tx("|"),
+			pr(&gen.EMethod{X: nm("_self"), Name: "m", Args: []gen.Expr{num(1), num(2)}}), tx("|"), names()}
+	case 1:
+		host = []gen.Node{names(), tx("|"), &gen.NFor{Key: "lk", Val: "lv", Seq: &gen.EArr{Els: []gen.Expr{num(1), num(2)}}, Body: []gen.Node{tx("("), cons, tx(")")}}, tx("|"), names()}
+	default:
+		host = []gen.Node{names(), tx("|"), &gen.NIf{Conds: []gen.Expr{&gen.EBool{V: true}}, Bodies: [][]gen.Node{{tx("("), cons, tx(")")}}}, tx("|"), names()}
+	}
+	ts := map[string]*gen.Template{"main": tpl("main", host...), "tgt": tpl("tgt", tx("T:"), &gen.NBlock{Name: "tb", Body: []gen.Node{tx("tb")}}, &gen.NSet{Name: "fresh", X: num(1)})}
+	return &Program{Templates: ts, Main: "main", Ctx: map[string]interface{}{"x": "hx", "y": "hy"}}, fmt.Sprintf("odd-with/%d/site=%d/form=%d", j%5, site, form)
+}
+
+func (p *c10) runOdd(res *fw.Result, j int) {
+	prog, sig := p.buildOdd(j)
+	lib := runLib(prog, gen.Canon{}, false)
+	res.Evals++
+	res.AddClass("with-value-is-no-hash")
+	switch {
+	case lib.pan != nil:
+		res.Fail("panic", "c10:"+sig, fmt.Sprintf("Execute panicked: %v", lib.pan), prog.describe())
+	case lib.endBad != "":
+		res.Fail("exec-end-invariant", "c10:"+sig, lib.endBad, prog.describe())
+	case lib.err == nil:
+		parts := strings.Split(lib.out, "|")
+		if len(parts) != 3 || parts[0] != parts[2] {
+			res.Fail("names-leaked", "c10:"+sig, fmt.Sprintf("the names visible before and after the construct differ: output %q", lib.out), prog.describe())
+		}
+	}
+	res.UniqueNT = 1
+}
 
 func c10probe(tag string) []gen.Node {
 	args := make([]gen.Expr, len(c10Pool))
@@ -406,6 +456,12 @@ func (p *c10) build(i int) (*Program, string, bool) {
 }
 
 func (p *c10) Describe(i int) interface{} {
+	if i >= p.nEnum+p.nRand+c10nSelf {
+		prog, sig := p.buildOdd(i - (p.nEnum + p.nRand + c10nSelf))
+		d := prog.describe()
+		d["coordinates"] = sig
+		return d
+	}
 	prog, sig, _ := p.build(i)
 	d := prog.describe()
 	d["coordinates"] = sig
@@ -413,6 +469,10 @@ func (p *c10) Describe(i int) interface{} {
 }
 
 func (p *c10) Run(i int) (res fw.Result) {
+	if i >= p.nEnum+p.nRand+c10nSelf {
+		p.runOdd(&res, i-(p.nEnum+p.nRand+c10nSelf))
+		return
+	}
 	prog, sig, nt := p.build(i)
 	lib, _, ok := modelCase(&res, "c10:"+sig, prog, gen.Canon{}, true)
 	if !ok {
